@@ -135,7 +135,7 @@ def mirror_replay(ctx):
             missing.append(frag)
     if missing and not mism:
         ctx.inconclusive("X05: mirror replay never exercised %s" % missing)
-    if s["late"] < 5:
+    if s["late"] < 5 and not mism:
         ctx.inconclusive("X05: fewer than 5 late-binding schedules replayed")
 
 
@@ -146,7 +146,8 @@ def mirror_tv(ctx):
     if rc != 0 or not ev:
         ctx.inconclusive("X05 mirror TV harness failed:\n" + out[-3000:])
     if any(e["ev"] == "stuck" for e in ev) or ev[-1]["ev"] != "end":
-        ctx.inconclusive("X05 mirror TV: quiescence barrier not reached: %s" % [e for e in ev if e["ev"] == "stuck"])
+        ctx.defer_inconclusive("X05 mirror TV: quiescence barrier not reached: %s" % [e for e in ev if e["ev"] == "stuck"])
+        return
     ev.sort(key=lambda e: e["seq"])
     ctx.write_ndjson("x05_tv_sorted.ndjson", ev)
     tr = ctx.tlc_trace("MirrorPool_Trace", "SPECIFICATION TSpec\nCONSTRAINT HWM\nPOSTCONDITION Accepted\n", ctx.path("x05_tv_sorted.ndjson"))
